@@ -212,7 +212,9 @@ fn run_campaign<C: Serialize>(ctx: &mut Ctx, sub: &'static str, camp: &Campaign,
                         "{sub}: libFuzzer reported {name} and the input takes {took:.1} s in-process (wall-clock signal, never a verdict); input kept at {}",
                         kept.display()
                     )),
-                    v => ctx.settle(sub, &case, v),
+                    v => {
+                        ctx.settle(sub, &case, v);
+                    }
                 }
                 continue;
             }
